@@ -595,6 +595,10 @@ def run(ctx):
     from soundevent import data
 
     rng = ctx.rng
+    from rv.props import concurrent_jobs
+
+    concurrent_jobs.run_some(ctx, "C10", quick=3, thorough=12)        # the same calls from a thread pool (rv/core/threads.py)
+    ctx.must_monitors.append("concurrent_calls")
     ctx.rule = ("label cascades: full factorial of option presence x mapping hit/miss x tag function behaviour; imports: (times, samples, frequencies, sample rate, time expansion, adjust flag); "
                 "exports: (geometry of any type or none, tags, cast / raise / ignore flags, label options); round trips; non-trivial = time expansion != 1 or a non-default option; distinct = distinct spec")
     ctx.assumptions += ["inputs stay inside crowsetta's own preconditions (onset < offset, low < high); its refusals are 'dependency_precondition', not violations",
